@@ -130,6 +130,7 @@ class Interp:
         self.stats = {"stmts": 0, "calls": 0, "memo_hits": 0, "memo_miss": 0}
         self.memo = False
         self.cur = None
+        self.unroll = 0
         self.memo_cache = {}
         self.recorders = []
 
@@ -983,16 +984,23 @@ class Interp:
                     raise AnalysisLimit("too many block visits in %s" % body.path)
                 if bb in heads:
                     prev = seen_in.get(bb)
-                    if prev is not None:
-                        merged = join_states(prev, cur)
-                        v = visits.get(bb, 0)
-                        if v >= WIDEN_AFTER:
-                            merged = self.widen_state(prev, merged, body, depth)
-                        if states_equal(merged, prev):
+                    v = visits.get(bb, 0)
+                    if prev is not None and v < self.unroll:
+                        # loop unrolling: analyse this iteration on its own state
+                        if states_equal(join_states(prev, cur), prev):
                             continue
-                        cur = merged
-                    visits[bb] = visits.get(bb, 0) + 1
-                    seen_in[bb] = cur.copy()
+                        seen_in[bb] = join_states(prev, cur)
+                        visits[bb] = v + 1
+                    else:
+                        if prev is not None:
+                            merged = join_states(prev, cur)
+                            if v >= WIDEN_AFTER + self.unroll:
+                                merged = self.widen_state(prev, merged, body, depth)
+                            if states_equal(merged, prev):
+                                continue
+                            cur = merged
+                        visits[bb] = v + 1
+                        seen_in[bb] = cur.copy()
                 if self.trace_blocks:
                     self.block_hits[(body.path, bb)] = self.block_hits.get((body.path, bb), 0) + 1
                 outs = self.exec_block(body, bb, cur, depth)
